@@ -13,7 +13,21 @@ def chk(pid, category, text, note, technique, design_ref):
         "technique": technique,
     }
 
-CHECKS = []
+CHECKS = [
+    chk("C05", "proof",
+        "Engine A symbolically executes the real AST of sets_k_fold_pattern, sets_k_fold_rdm, sets_leave_one_out_pattern/_rdm and "
+        "sets_of_k_pattern/_rdm (re-read from /repo on every run) and z3 discharges, for all numbers of groups, all k, both "
+        "k=None/int and every shuffle permutation (havoc): test/train subsets of the groups, train-test disjointness, train = complement, "
+        "folds pairwise disjoint, every group in some test fold, fold sizes differ by <= 1, returned objects are exactly the "
+        "advertised selections, ceil-set shape, call-site conformance of the of_k wrappers. The two-factor generators (sets_k_fold, "
+        "sets_random) and the non-interference clause of crossval are decided by bounded run-time oracles only (labelled bounded in "
+        "the evidence, never counted as proved).",
+        "Assumed: library contracts of np.unique/arange/floor/concatenate/setdiff1d/shuffle (listed in evidence trusted_base); "
+        "RDMs.subset/subset_pattern/subsample/subsample_pattern are uninterpreted selections (their own contracts belong to C09/C10); "
+        "mathematical integers; exact small-integer floats. Bounded part: n_rdm<=6, n_cond<=8, stated in evidence.",
+        "contract-based deductive verification: ast->z3 VC generation on the real source (map-loop summaries, havoc RNG), external z3 portfolio; bounded run-time oracles as stand-in for the rest",
+        "DESIGN.md C05"),
+]
 
 _PENDING = "contract written in DESIGN.md, machinery for this property not yet built and validated"
 NOT_APPLICABLE = [{"property_id": f"C{i:02d}", "reason": _PENDING} for i in range(1, 21)
